@@ -241,6 +241,20 @@ Proof.
       rewrite V. f_equal. unfold touch, oview. destruct rc; reflexivity.
 Qed.
 
+Lemma dedupe_from_seen t R : count_tag t R = 0 -> dedupe_from t true R = R.
+Proof.
+  induction R as [|c r IH]; [reflexivity|]. simpl. rewrite count_cons.
+  destruct (has_tag t c); simpl; [discriminate|]. intro C. f_equal. apply IH. exact C.
+Qed.
+
+Lemma dedupe_id t R : count_tag t R <= 1 -> dedupe t R = R.
+Proof.
+  unfold dedupe. induction R as [|c r IH]; [reflexivity|]. simpl. rewrite count_cons.
+  destruct (has_tag t c); simpl; intro C.
+  - f_equal. apply dedupe_from_seen. lia.
+  - f_equal. apply IH. exact C.
+Qed.
+
 (* ------------------------------------------------------------------ one library *)
 
 (* the tree after a round of the loop in which no object fails *)
@@ -260,12 +274,13 @@ Definition stepF (loc : nat) (l : lib) (g : list (N * N) -> list (N * N)) (root 
   | Some _ => update_first (ltag l) (fun c => set_kids (g (rkids c)) c) root
   end.
 
-Lemma lib_step_shape bad loc l root root' l' x : lib_step bad loc l root = (root', l', x) ->
+Lemma lib_step_shape_d bad loc l root0 root' l' x : lib_step bad loc l root0 = (root', l', x) ->
+  let root := dedupe (ltag l) root0 in
   pt_lib l' l /\ map oview (larr l') = map oview (larr l) /\
   (x = None -> root' = step0 loc l root /\ l' = touchlib l) /\
   (forall e, x = Some e -> larr l <> [] /\ exists g, root' = stepF loc l g root).
 Proof.
-  unfold lib_step, step0, stepF. intro E.
+  unfold lib_step, step0, stepF. intro E. simpl. set (root := dedupe (ltag l) root0) in *.
   destruct (larr l) as [|o r] eqn:EA.
   - destruct (find_tag (ltag l) root); inversion E; subst;
       (split; [apply pt_lib_refl|]); (split; [rewrite EA; reflexivity|]); (split; [|intros e X; discriminate]);
@@ -292,6 +307,16 @@ Proof.
       * split.
         -- rewrite update_first_insert_absent; [reflexivity|exact EF|reflexivity].
         -- unfold touchlib. rewrite app_nil_r, A1. reflexivity.
+Qed.
+
+Lemma lib_step_shape bad loc l root root' l' x : lib_step bad loc l root = (root', l', x) ->
+  pt_lib l' l /\ map oview (larr l') = map oview (larr l) /\
+  (count_tag (ltag l) root <= 1 ->
+   (x = None -> root' = step0 loc l root /\ l' = touchlib l) /\
+   (forall e, x = Some e -> larr l <> [] /\ exists g, root' = stepF loc l g root)).
+Proof.
+  intro E. destruct (lib_step_shape_d _ _ _ _ _ _ _ E) as (P & V & A & B).
+  split; [exact P|]. split; [exact V|]. intro C. rewrite (dedupe_id _ _ C) in A, B. split; assumption.
 Qed.
 
 (* step0 depends on the library through its tag, emptiness and K only *)
@@ -384,33 +409,44 @@ Definition tloop (loc : nat) (libs : list lib) (root : list rchild) : list rchil
 Definition uniq_tags (libs : list lib) (root : list rchild) : Prop :=
   forall l, In l libs -> count_tag (ltag l) root <= 1.
 
+Lemma uniq_step0 loc l libs root : uniq_tags (l :: libs) root -> uniq_tags libs (step0 loc l root).
+Proof.
+  intros U m I. apply count_step0_le.
+  - intros _. apply U. right. exact I.
+  - apply U. right. exact I.
+Qed.
+
 Lemma libs_loop_shape bad loc libs : forall root root' libs' x,
   libs_loop bad loc libs root = (root', libs', x) ->
   Forall2 pt_lib libs' libs /\
   map lview libs' = map lview libs /\
-  (x = None -> root' = tloop loc libs root /\ libs' = map touchlib libs) /\
-  (forall e, x = Some e -> exists pre lj post g,
-      libs = pre ++ lj :: post /\ larr lj <> [] /\ root' = stepF loc lj g (tloop loc pre root)).
+  (uniq_tags libs root ->
+   (x = None -> root' = tloop loc libs root /\ libs' = map touchlib libs) /\
+   (forall e, x = Some e -> exists pre lj post g,
+      libs = pre ++ lj :: post /\ larr lj <> [] /\ root' = stepF loc lj g (tloop loc pre root))).
 Proof.
   induction libs as [|l rest IH]; simpl; intros root root' libs' x E.
-  - inversion E; subst. split; [constructor|]. split; [reflexivity|].
+  - inversion E; subst. split; [constructor|]. split; [reflexivity|]. intros _.
     split; [intros _; split; reflexivity|intros e X; discriminate].
   - destruct (lib_step bad loc l root) as [[root1 l1] y] eqn:E1.
-    destruct (lib_step_shape _ _ _ _ _ _ _ E1) as (P & V & A & B).
+    destruct (lib_step_shape _ _ _ _ _ _ _ E1) as (P & V & AB).
     assert (LV : lview l1 = lview l).
     { unfold lview. destruct P as (T & R & _). rewrite T, R, V. reflexivity. }
     destruct y as [e|].
     + inversion E; subst. split.
       { constructor; [exact P|]. clear. induction rest; constructor; [apply pt_lib_refl|assumption]. }
-      split; [simpl; rewrite LV; reflexivity|].
+      split; [simpl; rewrite LV; reflexivity|]. intro U.
+      destruct (AB (U l (or_introl eq_refl))) as [A B].
       split; [intro X; discriminate|].
       intros e0 X. destruct (B e eq_refl) as (NE & g & G).
       exists [], l, rest, g. simpl. split; [reflexivity|]. split; assumption.
     + destruct (libs_loop bad loc rest root1) as [[root2 rest'] z] eqn:E2.
-      inversion E; subst. destruct (IH _ _ _ _ E2) as (F2 & V2 & A2 & B2).
-      destruct (A eq_refl) as [A1 A1']. subst root1.
+      inversion E; subst. destruct (IH _ _ _ _ E2) as (F2 & V2 & AB2).
       split; [constructor; assumption|].
-      split; [simpl; rewrite LV, V2; reflexivity|].
+      split; [simpl; rewrite LV, V2; reflexivity|]. intro U.
+      destruct (AB (U l (or_introl eq_refl))) as [A B].
+      destruct (A eq_refl) as [A1 A1']. subst root1.
+      destruct (AB2 (uniq_step0 loc l rest root U)) as [A2 B2].
       split.
       * intro H. destruct (A2 H) as [X1 X2]. subst root'. split; [reflexivity|].
         simpl. rewrite A1', X2. reflexivity.
@@ -437,13 +473,6 @@ Proof.
   simpl. apply IH.
   - intro X. apply NI. right. exact X.
   - eapply synced_find; [|exact S]. apply find_step0_other. intro X. apply NI. left. symmetry. exact X.
-Qed.
-
-Lemma uniq_step0 loc l libs root : uniq_tags (l :: libs) root -> uniq_tags libs (step0 loc l root).
-Proof.
-  intros U m I. apply count_step0_le.
-  - intros _. apply U. right. exact I.
-  - apply U. right. exact I.
 Qed.
 
 Lemma tloop_synced loc libs : NoDup (map ltag libs) -> forall root, uniq_tags libs root ->
@@ -501,9 +530,9 @@ Qed.
 (* ------------------------------------------------------------------ the whole save *)
 
 Definition root0 (m : model) (t : list rchild) : list rchild := asset_el m :: remove_first a_asset t.
-Definition fin (sc : option atom) (R : list rchild) : list rchild :=
+Definition fin (sc : option (N * atom)) (R : list rchild) : list rchild :=
   let R3 := update_first a_scene clear_el (ensure_scene R) in
-  match sc with None => R3 | Some sid => update_first a_scene (set_kids [(0%N, sid)]) R3 end.
+  match sc with None => R3 | Some (_, sid) => update_first a_scene (set_kids [(0%N, sid)]) R3 end.
 Definition touchm (m : model) : model := Model (masset m) (map touchlib (mlibs m)) (mscene m).
 Definition final (m : model) (t : list rchild) : list rchild :=
   fin (mscene m) (tloop (library_loc (root0 m t)) (mlibs m) (root0 m t)).
@@ -513,28 +542,31 @@ Lemma save_in_shape fc m t s' r : save_in fc (St m t) = (s', r) ->
   masset (smodel s') = masset m /\ mscene (smodel s') = mscene m /\
   Forall2 pt_lib (mlibs (smodel s')) (mlibs m) /\
   map lview (mlibs (smodel s')) = map lview (mlibs m) /\
-  ((exists sc, stree s' = fin sc (tloop loc (mlibs m) (root0 m t)) /\
+  (uniq_tags (mlibs m) (root0 m t) ->
+   ((exists sc, stree s' = fin sc (tloop loc (mlibs m) (root0 m t)) /\
                (r = Ok tt -> sc = scene_in fc (mscene m))) \/
    (exists pre lj post g, mlibs m = pre ++ lj :: post /\ larr lj <> [] /\ r <> Ok tt /\
-        stree s' = stepF loc lj g (tloop loc pre (root0 m t)))).
+        stree s' = stepF loc lj g (tloop loc pre (root0 m t))))).
 Proof.
   unfold save_in. simpl smodel. simpl stree. fold (root0 m t).
   change (insert_at 0 (asset_el m) (remove_first a_asset t)) with (root0 m t).
   destruct (libs_loop (fbad fc) (library_loc (root0 m t)) (mlibs m) (root0 m t)) as [[root1 libs'] x] eqn:E.
-  destruct (libs_loop_shape _ _ _ _ _ _ _ E) as (F & V & A & B).
+  destruct (libs_loop_shape _ _ _ _ _ _ _ E) as (F & V & AB).
   destruct x as [e|].
   - intro X. inversion X; subst. simpl.
-    split; [reflexivity|]. split; [reflexivity|]. split; [exact F|]. split; [exact V|].
+    split; [reflexivity|]. split; [reflexivity|]. split; [exact F|]. split; [exact V|]. intro U.
+    destruct (AB U) as [A B].
     right. destruct (B e eq_refl) as (pre & lj & post & g & L & NE & G).
     exists pre, lj, post, g. split; [exact L|]. split; [exact NE|]. split; [discriminate|exact G].
-  - destruct (A eq_refl) as [A1 A2]. subst root1.
-    destruct (scene_in fc (mscene m)) as [sid|] eqn:ES.
-    + destruct (existsb (fun o => N.eqb (oid o) sid) (scenes_of m)); intro X; inversion X; subst; simpl;
-        (split; [reflexivity|]); (split; [reflexivity|]); (split; [exact F|]); (split; [exact V|]); left.
-      * exists (Some sid). split; [reflexivity|intros _; reflexivity].
+  - destruct (scene_in fc (mscene m)) as [[su sid]|] eqn:ES.
+    + destruct (existsb (fun o => N.eqb (ouid o) su) (scenes_of m)); intro X; inversion X; subst; simpl;
+        (split; [reflexivity|]); (split; [reflexivity|]); (split; [exact F|]); (split; [exact V|]); intro U;
+        destruct (AB U) as [A B]; destruct (A eq_refl) as [A1 A2]; subst root1; left.
+      * exists (Some (su, sid)). split; [reflexivity|intros _; reflexivity].
       * exists None. split; [reflexivity|intro; discriminate].
     + intro X; inversion X; subst; simpl.
-      split; [reflexivity|]. split; [reflexivity|]. split; [exact F|]. split; [exact V|]. left.
+      split; [reflexivity|]. split; [reflexivity|]. split; [exact F|]. split; [exact V|]. intro U.
+      destruct (AB U) as [A B]. destruct (A eq_refl) as [A1 A2]. subst root1. left.
       exists None. split; [reflexivity|intros _; reflexivity].
 Qed.
 
@@ -544,39 +576,6 @@ Proof.
   destruct s as [m t]. destruct (save_in fc (St m t)) as [s' r] eqn:E.
   destruct (save_in_shape _ _ _ _ _ E) as (A & S & _ & V & _).
   simpl. unfold view. rewrite A, S, V. reflexivity.
-Qed.
-
-Lemma libs_loop_nofault loc libs root :
-  snd (libs_loop (fun _ => None) loc libs root) = None.
-Proof.
-  revert root. induction libs as [|l rest IH]; intro root; [reflexivity|]. simpl.
-  destruct (lib_step (fun _ => None) loc l root) as [[root1 l1] y] eqn:E1.
-  assert (Y : y = None).
-  { unfold lib_step in E1.
-    assert (SA : forall rc arr, snd (save_arr (fun _ => None) rc arr) = None).
-    { intros rc arr. induction arr as [|o r IHr]; [reflexivity|]. simpl.
-      destruct (save_arr (fun _ => None) rc r) as [[a b] c]. simpl in *. exact IHr. }
-    destruct (find_tag (ltag l) root), (larr l) eqn:EA; try (inversion E1; reflexivity);
-      rewrite <- EA in E1;
-      destruct (save_arr (fun _ => None) (lrec l) (larr l)) as [[a b] c] eqn:ES;
-      specialize (SA (lrec l) (larr l)); rewrite ES in SA; simpl in SA; subst c;
-      inversion E1; reflexivity. }
-  subst y. specialize (IH root1).
-  destruct (libs_loop (fun _ => None) loc rest root1) as [[a b] c]. simpl in *. exact IH.
-Qed.
-
-Lemma save_healthy m t : healthy m -> save (St m t) = (St (touchm m) (final m t), Ok tt).
-Proof.
-  intro H. unfold save, save_in. simpl smodel. simpl stree.
-  change (insert_at 0 (asset_el m) (remove_first a_asset t)) with (root0 m t).
-  assert (NF := libs_loop_nofault (library_loc (root0 m t)) (mlibs m) (root0 m t)).
-  simpl fbad.
-  destruct (libs_loop (fun _ => None) (library_loc (root0 m t)) (mlibs m) (root0 m t)) as [[root1 libs'] x] eqn:E.
-  simpl in NF. subst x.
-  destruct (libs_loop_shape _ _ _ _ _ _ _ E) as (_ & _ & A & _).
-  destruct (A eq_refl) as [A1 A2]. subst.
-  unfold final, fin, touchm, scene_in, healthy in *. simpl.
-  destruct (mscene m) as [sid|]; [rewrite H|]; reflexivity.
 Qed.
 
 (* ---- heads and the insertion position *)
@@ -610,7 +609,7 @@ Proof.
   assert (H1 : headed a (update_first a_scene clear_el
                 (match find_tag a_scene (a :: rest) with Some _ => a :: rest | None => (a :: rest) ++ [new_el a_scene] end))).
   { destruct (find_tag a_scene (a :: rest)); simpl; rewrite N; eexists; reflexivity. }
-  destruct sc; [|exact H1]. destruct H1 as [r1 E1]. rewrite E1. simpl. rewrite N. eexists; reflexivity.
+  destruct sc as [[su0 sid0]|]; [|exact H1]. destruct H1 as [r1 E1]. rewrite E1. simpl. rewrite N. eexists; reflexivity.
 Qed.
 
 Lemma loc_aux_none i loc R : count_tag a_asset R = 0 -> loc_aux i loc R = loc.
@@ -644,7 +643,7 @@ Proof.
   assert (P := ensure_present R). unfold fin.
   assert (P3 : find_tag a_scene (update_first a_scene clear_el (ensure_scene R)) <> None).
   { rewrite find_tag_update_same by apply keeps_clear. destruct (find_tag a_scene (ensure_scene R)); [discriminate|congruence]. }
-  destruct sc; [|exact P3].
+  destruct sc as [[su0 sid0]|]; [|exact P3].
   rewrite find_tag_update_same by apply keeps_set_kids.
   destruct (find_tag a_scene (update_first a_scene clear_el (ensure_scene R))); [discriminate|congruence].
 Qed.
@@ -653,7 +652,7 @@ Lemma fin_fin a b R : fin a (fin b R) = fin a R.
 Proof.
   unfold fin at 1. rewrite ensure_id by apply fin_present.
   assert (X : update_first a_scene clear_el (fin b R) = update_first a_scene clear_el (ensure_scene R)).
-  { unfold fin. destruct b.
+  { unfold fin. destruct b as [[su0 sid0]|].
     - rewrite !update_first_twice by (first [apply keeps_set_kids|apply keeps_clear|intro c; reflexivity]).
       apply update_first_ext. intro c. reflexivity.
     - rewrite update_first_twice by apply keeps_clear. apply update_first_ext. intro c. reflexivity. }
@@ -669,7 +668,7 @@ Proof.
     rewrite find_tag_app. destruct (find_tag t R); [reflexivity|].
     assert (HT : has_tag t (new_el a_scene) = false) by (apply has_tag_neq; simpl; congruence).
     rewrite HT. reflexivity. }
-  destruct sc; [|exact E]. rewrite find_tag_update_other; [exact E|apply keeps_set_kids|exact N].
+  destruct sc as [[su0 sid0]|]; [|exact E]. rewrite find_tag_update_other; [exact E|apply keeps_set_kids|exact N].
 Qed.
 
 Lemma count_fin_le sc R t : count_tag t R <= 1 -> count_tag t (fin sc R) <= 1.
@@ -680,7 +679,7 @@ Proof.
     destruct (find_tag a_scene R) eqn:F; [exact C|]. rewrite count_app1.
     destruct (has_tag t (new_el a_scene)) eqn:X; [|lia]. apply has_tag_eq in X. simpl in X. subst t.
     apply count_zero_find in F. lia. }
-  destruct sc; [|exact E]. rewrite count_update by apply keeps_set_kids. exact E.
+  destruct sc as [[su0 sid0]|]; [|exact E]. rewrite count_update by apply keeps_set_kids. exact E.
 Qed.
 
 (* ---- well-formedness *)
@@ -715,11 +714,83 @@ Qed.
 Lemma wf_root_save fc m t : wf_root m t -> wf_root m (stree (fst (save_in fc (St m t)))).
 Proof.
   intros W x M. destruct (save_in fc (St m t)) as [s' r] eqn:E.
-  destruct (save_in_shape _ _ _ _ _ E) as (_ & _ & _ & _ & [(sc & T & _)|(pre & lj & post & g & _ & _ & _ & T)]);
-    simpl; rewrite T.
+  destruct (save_in_shape _ _ _ _ _ E) as (_ & _ & _ & _ & TT).
+  assert (U : uniq_tags (mlibs m) (root0 m t)) by (intros l I; apply count_root0_le, W, managed_lib, I).
+  destruct (TT U) as [(sc & T & _)|(pre & lj & post & g & _ & _ & _ & T)]; simpl; rewrite T.
   - apply count_fin_le, count_tloop_le, count_root0_le, W, M.
   - apply count_stepF_le, count_tloop_le, count_root0_le, W, M.
 Qed.
+
+Lemma libs_loop_nofault loc libs root :
+  snd (libs_loop (fun _ => None) loc libs root) = None.
+Proof.
+  revert root. induction libs as [|l rest IH]; intro root; [reflexivity|]. simpl.
+  destruct (lib_step (fun _ => None) loc l root) as [[root1 l1] y] eqn:E1.
+  assert (Y : y = None).
+  { unfold lib_step in E1. cbv zeta in E1.
+    assert (SA : forall rc arr, snd (save_arr (fun _ => None) rc arr) = None).
+    { intros rc arr. induction arr as [|o r IHr]; [reflexivity|]. simpl.
+      destruct (save_arr (fun _ => None) rc r) as [[a b] c]. simpl in *. exact IHr. }
+    destruct (find_tag (ltag l) (dedupe (ltag l) root)), (larr l) eqn:EA; try (inversion E1; reflexivity);
+      rewrite <- EA in E1;
+      destruct (save_arr (fun _ => None) (lrec l) (larr l)) as [[a b] c] eqn:ES;
+      specialize (SA (lrec l) (larr l)); rewrite ES in SA; simpl in SA; subst c;
+      inversion E1; reflexivity. }
+  subst y. specialize (IH root1).
+  destruct (libs_loop (fun _ => None) loc rest root1) as [[a b] c]. simpl in *. exact IH.
+Qed.
+
+Lemma save_healthy m t : wf_root m t -> healthy m -> save (St m t) = (St (touchm m) (final m t), Ok tt).
+Proof.
+  intros W H.
+  assert (U : uniq_tags (mlibs m) (root0 m t)).
+  { intros l I. apply count_root0_le, W, managed_lib, I. } unfold save, save_in. simpl smodel. simpl stree.
+  change (insert_at 0 (asset_el m) (remove_first a_asset t)) with (root0 m t).
+  assert (NF := libs_loop_nofault (library_loc (root0 m t)) (mlibs m) (root0 m t)).
+  simpl fbad.
+  destruct (libs_loop (fun _ => None) (library_loc (root0 m t)) (mlibs m) (root0 m t)) as [[root1 libs'] x] eqn:E.
+  simpl in NF. subst x.
+  destruct (libs_loop_shape _ _ _ _ _ _ _ E) as (_ & _ & AB).
+  destruct (AB U) as [A _]. destruct (A eq_refl) as [A1 A2]. subst.
+  unfold final, fin, touchm, scene_in, healthy in *. simpl.
+  destruct (mscene m) as [[su sid]|]; [rewrite H|]; reflexivity.
+Qed.
+
+(* view-equal models agree on everything the hypotheses talk about *)
+Lemma view_tags m1 m : view m1 = view m -> map ltag (mlibs m1) = map ltag (mlibs m) /\ mscene m1 = mscene m.
+Proof.
+  unfold view. intro V. inversion V as [[A L S]]. split; [|reflexivity]. clear - L.
+  revert L. generalize (mlibs m). induction (mlibs m1) as [|l1 r1 IH]; intros [|l r] L; try discriminate; [reflexivity|].
+  simpl in L. inversion L. simpl. f_equal; [assumption|apply IH; assumption].
+Qed.
+
+Lemma view_managed m1 m : view m1 = view m -> forall t, managed m1 t = managed m t.
+Proof.
+  intros V t. destruct (view_tags _ _ V) as [T _]. unfold managed. f_equal.
+  assert (X : forall libs, existsb (fun l => N.eqb (ltag l) t) libs = existsb (fun x => N.eqb x t) (map ltag libs)).
+  { induction libs as [|l r IH]; [reflexivity|]. simpl. rewrite IH. reflexivity. }
+  rewrite !X, T. reflexivity.
+Qed.
+
+Lemma view_wf_libs m1 m : view m1 = view m -> wf_libs m -> wf_libs m1.
+Proof. intros V. destruct (view_tags _ _ V) as [T _]. unfold wf_libs. rewrite T. exact (fun x => x). Qed.
+
+Lemma view_wf_root m1 m t : view m1 = view m -> wf_root m t -> wf_root m1 t.
+Proof. intros V W x M. apply W. rewrite <- (view_managed _ _ V). exact M. Qed.
+
+Lemma view_healthy m1 m : view m1 = view m -> healthy m -> healthy m1.
+Proof.
+  intros V H. destruct (view_tags _ _ V) as [_ S]. unfold healthy in *. rewrite S.
+  destruct (mscene m) as [[su sid]|]; [|exact I]. rewrite <- H. unfold scenes_of.
+  unfold view in V. inversion V as [[A L S']]. clear - L.
+  revert L. generalize (mlibs m). induction (mlibs m1) as [|l1 r1 IH]; intros [|l r] L; try discriminate; [reflexivity|].
+  simpl in L. inversion L as [[VT VR VA Q]]. simpl. rewrite VT.
+  destruct (N.eqb (ltag l) a_library_visual_scenes); [|apply IH; assumption].
+  simpl. rewrite !existsb_app. f_equal; [|apply IH; assumption].
+  clear - VA. revert VA. generalize (larr l). induction (larr l1) as [|o1 q1 IHq]; intros [|o q] VA; try discriminate; [reflexivity|].
+  simpl in VA. inversion VA as [[U I C Q]]. simpl. rewrite U. f_equal. apply IHq. exact Q.
+Qed.
+
 
 Lemma final_pt m1 m t1 : masset m1 = masset m -> mscene m1 = mscene m ->
   Forall2 pt_lib (mlibs m1) (mlibs m) -> final m1 t1 = final m t1.
@@ -740,16 +811,13 @@ Proof.
   assert (TM : touchm m1 = touchm m).
   { unfold touchm. rewrite A, S. f_equal.
     clear - F. induction F as [|l' l a' a P F IH]; [reflexivity|]. simpl. rewrite IH, (pt_lib_touchlib _ _ P). reflexivity. }
-  assert (H1 : healthy m1).
-  { unfold healthy in *. rewrite S. destruct (mscene m) as [sid|]; [|exact I].
-    rewrite <- H. unfold scenes_of.
-    clear - V. revert V. generalize (mlibs m). induction (mlibs m1) as [|l1 r1 IH]; intros [|l r] V; try discriminate; [reflexivity|].
-    simpl in V. inversion V as [[VT VR VA]]. simpl. rewrite VT.
-    destruct (N.eqb (ltag l) a_library_visual_scenes); [|apply IH; assumption].
-    simpl. rewrite !existsb_app. f_equal; [|apply IH; assumption].
-    clear - VA. revert VA. generalize (larr l). induction (larr l1) as [|o1 q1 IHq]; intros [|o q] VA; try discriminate; [reflexivity|].
-    simpl in VA. inversion VA as [[U I C Q]]. simpl. rewrite I. f_equal. apply IHq. exact Q. }
-  rewrite (save_healthy m1 t1 H1), (save_healthy m t H), TM. f_equal. f_equal.
+  assert (VW : view m1 = view m) by (unfold view; rewrite A, S, V; reflexivity).
+  assert (H1 : healthy m1) by (apply (view_healthy _ _ VW H)).
+  assert (W1 : wf_root m1 t1).
+  { apply (view_wf_root _ _ _ VW). assert (X := wf_root_save fc m t W). rewrite E in X. exact X. }
+  assert (U00 : uniq_tags (mlibs m) (root0 m t)) by (intros l I; apply count_root0_le, W, managed_lib, I).
+  specialize (T U00).
+  rewrite (save_healthy m1 t1 W1 H1), (save_healthy m t W H), TM. f_equal. f_equal.
   rewrite (final_pt m1 m t1 A S F).
   (* the tree side *)
   set (R0 := root0 m t) in *. set (loc := library_loc R0) in *.
@@ -769,7 +837,7 @@ Proof.
       + apply tloop_headed; [lia| |exact HD0].
         intro X. apply NA. rewrite L, map_app. apply in_or_app. left. exact X. }
   assert (C1 : count_tag a_asset t1 <= 1).
-  { assert (W1 := wf_root_save fc m t W). rewrite E in W1. simpl in W1. apply W1, managed_asset. }
+  { assert (W2 := wf_root_save fc m t W). rewrite E in W2. simpl in W2. apply W2, managed_asset. }
   assert (R1 : root0 m t1 = t1) by (apply root0_headed_id; exact HD1).
   assert (LL : library_loc t1 = loc).
   { rewrite L1. destruct HD1 as [rest X]. rewrite X in *. apply library_loc_headed; [exact HA|exact C1]. }
@@ -789,7 +857,7 @@ Proof.
   { destruct s as [m t]. unfold save, save_in in E. simpl in *.
     destruct (libs_loop (fun _ => None) _ (mlibs m) _) as [[root1 libs'] x].
     destruct x; [discriminate|]. unfold healthy, scene_in in *. simpl in *.
-    destruct (mscene m) as [sid|]; [|exact I].
+    destruct (mscene m) as [[su sid]|]; [|exact I].
     destruct (existsb _ (scenes_of m)); [reflexivity|discriminate]. }
   assert (C := save_confluent no_fault s WL WR H). fold (save s) in C. rewrite E in C. simpl in C.
   exact C.
@@ -858,7 +926,7 @@ Section Unmanaged.
     { rewrite filter_update_first; [|apply keeps_clear|exact Q]. unfold ensure_scene.
       destruct (find_tag a_scene R); [reflexivity|]. rewrite filter_app.
       assert (P1 : p (new_el a_scene) = false) by exact Q. simpl. rewrite P1. apply app_nil_r. }
-    destruct sc; [|exact E]. rewrite filter_update_first; [exact E|apply keeps_set_kids|exact Q].
+    destruct sc as [[su0 sid0]|]; [|exact E]. rewrite filter_update_first; [exact E|apply keeps_set_kids|exact Q].
   Qed.
 
   Lemma filter_root0 m t : q a_asset = false -> filter p (root0 m t) = filter p t.
@@ -870,11 +938,13 @@ End Unmanaged.
 
 (* root children outside <asset>, the managed libraries and <scene> keep identity, order and
    subtree - after a complete save and after an interrupted one alike *)
-Theorem unmanaged_preserved fc s :
+Theorem unmanaged_preserved fc s : wf_root (smodel s) (stree s) ->
   unmanaged_children (smodel s) (stree (fst (save_in fc s))) = unmanaged_children (smodel s) (stree s).
 Proof.
-  destruct s as [m t]. simpl. destruct (save_in fc (St m t)) as [s' r] eqn:E.
-  destruct (save_in_shape _ _ _ _ _ E) as (_ & _ & _ & _ & T). simpl.
+  destruct s as [m t]. simpl. intro W. destruct (save_in fc (St m t)) as [s' r] eqn:E.
+  destruct (save_in_shape _ _ _ _ _ E) as (_ & _ & _ & _ & TT).
+  assert (U : uniq_tags (mlibs m) (root0 m t)) by (intros l I; apply count_root0_le, W, managed_lib, I).
+  specialize (TT U). rename TT into T. simpl.
   unfold unmanaged_children.
   set (q := fun x => negb (managed m x)).
   assert (QA : q a_asset = false) by (unfold q; rewrite managed_asset; reflexivity).
@@ -895,11 +965,12 @@ Theorem save_syncs s s1 :
   Forall (lib_synced (stree s1)) (mlibs (smodel s)) /\
   hd_error (stree s1) = Some (asset_el (smodel s)) /\
   exists c, find_tag a_scene (stree s1) = Some c /\ rsub c = 0%N /\
-            rkids c = match mscene (smodel s) with Some sid => [(0%N, sid)] | None => [] end.
+            rkids c = match mscene (smodel s) with Some (_, sid) => [(0%N, sid)] | None => [] end.
 Proof.
   destruct s as [m t]. simpl. intros (ND & NA & NS) W E.
-  destruct (save_in_shape _ _ _ _ _ E) as (_ & _ & _ & _ & [(sc & T & SC)|(pre & lj & post & g & _ & _ & X & _)]);
-    [|congruence].
+  destruct (save_in_shape _ _ _ _ _ E) as (_ & _ & _ & _ & TT).
+  assert (U00 : uniq_tags (mlibs m) (root0 m t)) by (intros l I; apply count_root0_le, W, managed_lib, I).
+  destruct (TT U00) as [(sc & T & SC)|(pre & lj & post & g & _ & _ & X & _)]; [|congruence].
   specialize (SC eq_refl). simpl in SC. unfold scene_in in SC. simpl in SC. subst sc.
   rewrite T. set (R0 := root0 m t). set (loc := library_loc R0).
   assert (C0 : forall x, managed m x = true -> count_tag x R0 <= 1) by (intros x M; apply count_root0_le, W, M).
@@ -914,7 +985,7 @@ Proof.
     destruct HD as [rest HD]. rewrite HD. reflexivity.
   - unfold fin. set (Y := tloop loc (mlibs m) R0).
     assert (P := ensure_present Y). destruct (find_tag a_scene (ensure_scene Y)) as [c|] eqn:F; [|congruence].
-    destruct (mscene m) as [sid|].
+    destruct (mscene m) as [[su sid]|].
     + exists (set_kids [(0%N, sid)] (clear_el c)).
       rewrite !find_tag_update_same by (first [apply keeps_set_kids|apply keeps_clear]). rewrite F.
       split; [reflexivity|split; reflexivity].
@@ -944,41 +1015,6 @@ Qed.
 (* any failed write, whatever the destination: the model is as it was *)
 Theorem failed_write_keeps_model fc d s : view (smodel (fst (fst (write_in fc d s)))) = view (smodel s).
 Proof. rewrite write_in_state. apply save_keeps_view. Qed.
-
-(* view-equal models agree on everything the hypotheses talk about *)
-Lemma view_tags m1 m : view m1 = view m -> map ltag (mlibs m1) = map ltag (mlibs m) /\ mscene m1 = mscene m.
-Proof.
-  unfold view. intro V. inversion V as [[A L S]]. split; [|reflexivity]. clear - L.
-  revert L. generalize (mlibs m). induction (mlibs m1) as [|l1 r1 IH]; intros [|l r] L; try discriminate; [reflexivity|].
-  simpl in L. inversion L. simpl. f_equal; [assumption|apply IH; assumption].
-Qed.
-
-Lemma view_managed m1 m : view m1 = view m -> forall t, managed m1 t = managed m t.
-Proof.
-  intros V t. destruct (view_tags _ _ V) as [T _]. unfold managed. f_equal.
-  assert (X : forall libs, existsb (fun l => N.eqb (ltag l) t) libs = existsb (fun x => N.eqb x t) (map ltag libs)).
-  { induction libs as [|l r IH]; [reflexivity|]. simpl. rewrite IH. reflexivity. }
-  rewrite !X, T. reflexivity.
-Qed.
-
-Lemma view_wf_libs m1 m : view m1 = view m -> wf_libs m -> wf_libs m1.
-Proof. intros V. destruct (view_tags _ _ V) as [T _]. unfold wf_libs. rewrite T. exact (fun x => x). Qed.
-
-Lemma view_wf_root m1 m t : view m1 = view m -> wf_root m t -> wf_root m1 t.
-Proof. intros V W x M. apply W. rewrite <- (view_managed _ _ V). exact M. Qed.
-
-Lemma view_healthy m1 m : view m1 = view m -> healthy m -> healthy m1.
-Proof.
-  intros V H. destruct (view_tags _ _ V) as [_ S]. unfold healthy in *. rewrite S.
-  destruct (mscene m) as [sid|]; [|exact I]. rewrite <- H. unfold scenes_of.
-  unfold view in V. inversion V as [[A L S']]. clear - L.
-  revert L. generalize (mlibs m). induction (mlibs m1) as [|l1 r1 IH]; intros [|l r] L; try discriminate; [reflexivity|].
-  simpl in L. inversion L as [[VT VR VA Q]]. simpl. rewrite VT.
-  destruct (N.eqb (ltag l) a_library_visual_scenes); [|apply IH; assumption].
-  simpl. rewrite !existsb_app. f_equal; [|apply IH; assumption].
-  clear - VA. revert VA. generalize (larr l). induction (larr l1) as [|o1 q1 IHq]; intros [|o q] VA; try discriminate; [reflexivity|].
-  simpl in VA. inversion VA as [[U I C Q]]. simpl. rewrite I. f_equal. apply IHq. exact Q.
-Qed.
 
 (* the invariant of a history of attempts *)
 Definition hist_inv (s0 s : state) : Prop :=
@@ -1023,10 +1059,10 @@ Proof.
 Qed.
 
 (* and that write does succeed *)
-Lemma healthy_bytes_some s : healthy (smodel s) -> exists b, healthy_bytes s = Some b.
+Lemma healthy_bytes_some s : wf_root (smodel s) (stree s) -> healthy (smodel s) -> exists b, healthy_bytes s = Some b.
 Proof.
-  intro H. destruct s as [m t]. unfold healthy_bytes, write, write_in. fold (save (St m t)).
-  rewrite (save_healthy m t H). simpl. eexists; reflexivity.
+  intros W H. destruct s as [m t]. unfold healthy_bytes, write, write_in. fold (save (St m t)).
+  rewrite (save_healthy m t W H). simpl. eexists; reflexivity.
 Qed.
 
 (* ------------------------------------------------------------------ boolean checkers for the hypotheses *)
@@ -1037,7 +1073,7 @@ Fixpoint nodup_b (l : list atom) : bool :=
   match l with [] => true | x :: r => negb (existsb (N.eqb x) r) && nodup_b r end.
 Definition wf_libs_b (m : model) : bool := nodup_b (special_tags m) && negb (N.eqb a_asset a_scene).
 Definition healthy_b (m : model) : bool :=
-  match mscene m with None => true | Some sid => existsb (fun o => N.eqb (oid o) sid) (scenes_of m) end.
+  match mscene m with None => true | Some (su, _) => existsb (fun o => N.eqb (ouid o) su) (scenes_of m) end.
 
 Lemma managed_special m t : managed m t = true -> In t (special_tags m).
 Proof.
@@ -1071,4 +1107,4 @@ Proof.
 Qed.
 
 Lemma healthy_b_ok m : healthy_b m = true -> healthy m.
-Proof. unfold healthy_b, healthy. destruct (mscene m); [exact (fun x => x)|intros _; exact I]. Qed.
+Proof. unfold healthy_b, healthy. destruct (mscene m) as [[su sid]|]; [exact (fun x => x)|intros _; exact I]. Qed.
